@@ -5,9 +5,12 @@ import (
 	"errors"
 	"io"
 	"sync"
+	"sync/atomic"
 
 	"google.golang.org/grpc"
+	"google.golang.org/grpc/codes"
 	"google.golang.org/grpc/metadata"
+	"google.golang.org/grpc/status"
 	"google.golang.org/protobuf/proto"
 )
 
@@ -21,7 +24,8 @@ type ClientServerStream struct {
 
 	serverSend chan any
 	clientSend chan any
-	trailerM   sync.Mutex // guards trailer
+	sendClosed atomic.Bool // set by the first CloseSend, which closes clientSend
+	trailerM   sync.Mutex  // guards trailer
 	trailer    metadata.MD
 	closed     context.CancelFunc
 	closeErr   error
@@ -108,7 +112,10 @@ func (c *clientStream) Trailer() metadata.MD {
 }
 
 func (c *clientStream) CloseSend() error {
-	close(c.clientSend)
+	// as on a real connection, closing twice is harmless
+	if c.sendClosed.CompareAndSwap(false, true) {
+		close(c.clientSend)
+	}
 	return nil
 }
 
@@ -117,6 +124,10 @@ func (c *clientStream) Context() context.Context {
 }
 
 func (c *clientStream) SendMsg(m any) error {
+	if c.sendClosed.Load() {
+		// clientSend is closed: report the misuse as a real ClientStream does instead of panicking
+		return status.Error(codes.Internal, "SendMsg called after CloseSend")
+	}
 	select {
 	case <-c.ctx.Done():
 		return c.doneErr()
